@@ -126,4 +126,49 @@ def isStale : Event → Bool
   | .onPollEnd _ b => b
   | _ => false
 
+/-! ### Agent.doPoll (the OnPoll callback of the real agent): check-then-act
+
+    `doPoll` reconnects, waits for the poll duration (or a wake signal), then reads the manager's
+    state WITHOUT the manager's lock and, unless it is AWAKE, calls `peerMgr.DisconnectAll()`.
+    Steps: `dpStart` = everything up to and including the state check; `dpRelease` = DisconnectAll. -/
+
+inductive DLabel where
+  | sleep | wake | dpStart | dpRelease
+  deriving DecidableEq, Repr
+
+structure DS where
+  st : St
+  /-- a doPoll has passed its state check and is about to call DisconnectAll -/
+  parked : Bool
+  deriving DecidableEq, Repr
+
+inductive DEvent where
+  /-- `DisconnectAll()` invoked by doPoll; `awake` = manager state at that moment -/
+  | disconnect (awake : Bool)
+  deriving DecidableEq, Repr
+
+inductive DRes where
+  | ok | refused | returned | parked | disconnected | disabled
+  deriving DecidableEq, Repr
+
+def dstep (s : DS) : DLabel → DS × DRes × List DEvent
+  | .sleep => if s.st = .awake then ({ s with st := .sleeping }, .ok, []) else (s, .refused, [])
+  | .wake => if s.st = .awake then (s, .refused, []) else ({ s with st := .awake }, .ok, [])
+  | .dpStart =>
+    if s.parked then (s, .disabled, [])
+    else if s.st = .awake then (s, .returned, [])       -- "poll cycle ended but agent is awake"
+    else ({ s with parked := true }, .parked, [])
+  | .dpRelease =>
+    if !s.parked then (s, .disabled, [])
+    else ({ s with parked := false }, .disconnected, [.disconnect (decide (s.st = .awake))])
+
+def drun (s : DS) : List DLabel → DS × List DEvent
+  | [] => (s, [])
+  | l :: ls =>
+    let (s1, _, ev) := dstep s l
+    let (s2, evs) := drun s1 ls
+    (s2, ev ++ evs)
+
+def DS.init : DS := { st := .awake, parked := false }
+
 end MM.C30
